@@ -103,12 +103,18 @@ def judgeEnc (prop : String) (s : SpecSt) (dst : B) (e : Enc) (buf : Bytes) (o :
       else match e with
         | .reqQueryHop a t => if sub (b.take n) 9 (n - 1) == [0x80#8, 0x0E#8, a, t] then .known "D5" else .fail "body"
         | _ => .fail "body"
+    | .err _, some _ => if documentedInvalid e || !argsOk e then .na else .fail "valid-request-refused"
+    | .panic _, some body =>
+      if documentedInvalid e || !argsOk e || decide (buf.length < 10 + body.length) then .na else .fail "valid-request-panics"
     | _, _ => .na
   | "C07" =>
     match o, respFields respEid e with
     | .ok (b, n), some (cmd, cc, fields) =>
       (chk (sub (b.take n) 9 12 == [0x00#8, cmd, cc]) "header").and
         (if cc = 0x00#8 then chk (sub (b.take n) 12 (n - 1) == fields) "fields" else .ok)
+    | .err _, some _ => if documentedInvalid e || !argsOk e then .na else .fail "valid-response-refused"
+    | .panic _, some (_, _, fields) =>
+      if documentedInvalid e || !argsOk e || decide (buf.length < 13 + fields.length) then .na else .fail "valid-response-panics"
     | _, _ => .na
   | "C08" =>
     match e with
@@ -116,6 +122,8 @@ def judgeEnc (prop : String) (s : SpecSt) (dst : B) (e : Enc) (buf : Bytes) (o :
       if v.format = 0#8 ∨ v.format = 1#8 then
         match o, vendorFrame e with
         | .ok (b, n), some fr => chk (message (b.take n) == fr) "frame"
+        | .err _, some fr => if decide (fr.length ≤ 250) then .fail "valid-message-refused" else .na
+        | .panic _, some fr => if decide (fr.length ≤ 250) && decide (9 + fr.length < buf.length) then .fail "valid-message-panics" else .na
         | _, _ => .na
       else
         match o with
@@ -124,6 +132,8 @@ def judgeEnc (prop : String) (s : SpecSt) (dst : B) (e : Enc) (buf : Bytes) (o :
     | _ =>
       match o, vendorFrame e with
       | .ok (b, n), some fr => chk (message (b.take n) == fr) "frame"
+      | .err _, some fr => if decide (fr.length ≤ 250) then .fail "valid-message-refused" else .na
+      | .panic _, some fr => if decide (fr.length ≤ 250) && decide (9 + fr.length < buf.length) then .fail "valid-message-panics" else .na
       | _, _ => .na
   | "C16" =>
     let fits : Option Bool := (messageLen respEid e).map (fun m => decide (m ≤ 250))
